@@ -1,0 +1,8 @@
+//go:build !verif
+
+// Package verifhook provides instrumentation points for external verification harnesses. Without
+// the "verif" build tag every function is an empty no-op.
+package verifhook
+
+// Gate marks a point at which a verification harness may pause the calling goroutine.
+func Gate(point string) {}
